@@ -571,9 +571,18 @@ where
                 );
             }
 
-            let permitted = {
+            let (permitted, trial) = {
                 let mut circuit = circuit.lock().await;
-                circuit.try_acquire(&config)
+                let permitted = circuit.try_acquire(&config);
+                // In half-open an admitted call holds a trial slot until its outcome is
+                // recorded (or it is dropped), so concurrent callers cannot exceed
+                // permitted_calls_in_half_open.
+                let trial = if permitted {
+                    circuit.begin_trial()
+                } else {
+                    None
+                };
+                (permitted, trial)
             };
 
             #[cfg(feature = "tracing")]
@@ -603,6 +612,7 @@ where
             let duration = start.elapsed();
 
             let mut circuit = circuit.lock().await;
+            drop(trial);
             if config.failure_classifier.classify(&result) {
                 circuit.record_failure(&config, duration);
             } else {
@@ -738,9 +748,18 @@ where
                 );
             }
 
-            let permitted = {
+            let (permitted, trial) = {
                 let mut circuit = circuit.lock().await;
-                circuit.try_acquire(&config)
+                let permitted = circuit.try_acquire(&config);
+                // In half-open an admitted call holds a trial slot until its outcome is
+                // recorded (or it is dropped), so concurrent callers cannot exceed
+                // permitted_calls_in_half_open.
+                let trial = if permitted {
+                    circuit.begin_trial()
+                } else {
+                    None
+                };
+                (permitted, trial)
             };
 
             #[cfg(feature = "tracing")]
@@ -776,6 +795,7 @@ where
             let duration = start.elapsed();
 
             let mut circuit = circuit.lock().await;
+            drop(trial);
             if config.failure_classifier.classify(&result) {
                 circuit.record_failure(&config, duration);
             } else {
